@@ -7,7 +7,8 @@ import SqiGen.Tables5
    `c13.k2i lvl f v0 v1` -> `ok|noninv a b g0 g1 g2 g3 z0 z1`   (generator numerators over denominator 2; z = (a − ι + bθ)·v mod 2^f)
    `c13.i2k lvl n c0 c1 c2 c3` -> `w0 w1`                        (kernel vector from the O0-coordinates of the conjugate generator)
    `c13.finduv n d1 d2 d2inv i3 k` -> `u v`
-   `c13.fdi T bp b` -> `length dblcount row` -/
+   `c13.fdi T bp b` -> `length dblcount row`
+   `c13.endo lvl f c0 c1 c2 c3` -> `m00 m01 m10 m11`   (matrix of c0 + c1·g2 + c2·g3 + c3·g4 reduced mod 2^f) -/
 namespace SqiModel.Drv.IdealKernel
 open SqiModel SqiModel.Util SqiModel.IdealKernel
 
@@ -33,6 +34,12 @@ def handle : List String → Option String
       let n ← parseHexInt? n
       let w := idealToKernel G2 G3 G4 n (← parseHexInt? c0, ← parseHexInt? c1, ← parseHexInt? c2, ← parseHexInt? c3)
       pure (intsToHex [w.1, w.2])
+  | ["c13.endo", lvl, f, c0, c1, c2, c3] => do
+      let (_, _, G2, G3, G4) ← mats (← parseHexNat? lvl)
+      let f ← parseHexNat? f
+      let m := matOfCoeffs G2 G3 G4 (← parseHexInt? c0, ← parseHexInt? c1, ← parseHexInt? c2, ← parseHexInt? c3)
+      let N : Int := 2 ^ f
+      pure (intsToHex [Mat2.get m 0 0 % N, Mat2.get m 0 1 % N, Mat2.get m 1 0 % N, Mat2.get m 1 1 % N])
   | ["c13.finduv", n, d1, d2, d2inv, i3, k] => do
       let r := findUVStep (← parseHexInt? n) (← parseHexInt? d1) (← parseHexInt? d2) (← parseHexInt? d2inv) (← parseHexNat? i3) (← parseHexNat? k)
       pure (intsToHex [r.1, r.2])
